@@ -141,6 +141,12 @@ def verify_function(fv):
         if ty.strip_opt().is_obj:
             from .heap import ALLOC0
             fv.add_fact(st, z3.Implies(sv.term != P.none, z3.Select(ALLOC0, sv.term)))
+    if fv.cls is not None and real and real[0] == 'self' and 'self' in st.env and fv.cls.key in E.fe.classes:
+        # the receiver's dynamic class is one that inherits exactly this implementation
+        fe = E.fe
+        ks = [k for k in fe.subclasses(fv.cls.key) if fe.resolve_method(k, fv.fn.name)[1] is fv.fn]
+        if ks:
+            fv.add_fact(st, z3.Or(*[P.cls(st.env['self'].term) == E.class_id(k) for k in ks]))
     if fv.fn.args.vararg or fv.fn.args.kwarg:
         raise Unsupported('%s: *args/**kwargs' % fv.qual)
     fv.old_state = st.copy()
